@@ -114,6 +114,19 @@ func ruleEventPayload(c *eng.Ctx) {
 						return false
 					}
 					lit, ok := cc.Args[0].(*ast.FuncLit)
+					if !ok {
+						// the callback bound to a local first: f := func(){...}; txn.OnSuccess(f)
+						if o := eng.ObjOf(info, cc.Args[0]); o != nil {
+							ast.Inspect(fi.Decl.Body, func(x ast.Node) bool {
+								if as, isAs := x.(*ast.AssignStmt); isAs && len(as.Lhs) == 1 && len(as.Rhs) == 1 && eng.ObjOf(info, as.Lhs[0]) == o {
+									if l, isLit := as.Rhs[0].(*ast.FuncLit); isLit {
+										lit, ok = l, true
+									}
+								}
+								return true
+							})
+						}
+					}
 					return ok && mentionsObj(info, lit, evVar) && eng.FindCall(lit.Body, true, func(pc *ast.CallExpr) bool {
 						return strings.HasSuffix(eng.CalleeName(info, pc), ".Publish")
 					}) != nil
